@@ -79,12 +79,28 @@ def build_db(ft, lemmas, goal_variant):
                              ('block', [('e', 'l12.1', (TH, IMP(ph0, ph1))),
                                         ('p', 'l12', (TH, A('\\g', ph1, ph0, c0)),
                                          mmref.encode_compressed(t, mand(['ph0', 'ph1']) + ['l12.0', 'l12.1'], 'none'))])]))
+    if 'L13' in lemmas:
+        # a lemma ABOUT a variable that is declared (with its floating hypothesis) after every axiom the proof cites:
+        # mandatory floating hypotheses are never named in the label list
+        if not any(x[0] == 'v' and 'ph3' in x[1] for x in st):
+            st.append(('v', ('ph3',)))
+            st.append(('f', 'ph3-is-pattern', '#Pattern', 'ph3'))
+        _, fr13 = frames_of(st)
+        q = V('ph3')
+        qq = IMP(q, q)
+        t = mmgen.apply('proof-rule-mp', fr13, {'ph0': IMP(q, qq), 'ph1': qq}, [
+            mmgen.apply('proof-rule-mp', fr13, {'ph0': IMP(q, IMP(qq, q)), 'ph1': IMP(IMP(q, qq), qq)}, [
+                mmgen.apply('proof-rule-prop-2', fr13, {'ph0': q, 'ph1': qq, 'ph2': q}, []),
+                mmgen.apply('proof-rule-prop-1', fr13, {'ph0': q, 'ph1': qq}, [])]),
+            mmgen.apply('proof-rule-prop-1', fr13, {'ph0': q, 'ph1': q}, [])])
+        st.append(('p', 'l13', (TH, qq), mmref.encode_compressed(t, ['ph3-is-pattern'], 'all')))
     if 'L7' in lemmas:
         # the proof goes through a DUMMY variable (ph3 occurs in no statement of the lemma): its floating hypothesis is not
         # mandatory, so it is named in the proof's label list and the slice has to declare the variable for it
         # ph3 is used by no axiom either, so nothing but the label list brings it into the slice
-        st.append(('v', ('ph3',)))
-        st.append(('f', 'ph3-is-pattern', '#Pattern', 'ph3'))
+        if not any(x[0] == 'v' and 'ph3' in x[1] for x in st):
+            st.append(('v', ('ph3',)))
+            st.append(('f', 'ph3-is-pattern', '#Pattern', 'ph3'))
         _, fr = frames_of(st)
         ph2 = V('ph3')
         x = IMP(ph2, ph0)
@@ -151,6 +167,9 @@ def build_db(ft, lemmas, goal_variant):
         target = A('\\g', IMP(c0, fc), fc, c0)
         t = mmgen.apply('l12', fr, {'ph0': fc, 'ph1': IMP(c0, fc)},
                         [('ax-b', []), mmgen.apply('proof-rule-prop-1', fr, {'ph0': fc, 'ph1': c0}, [])])
+    elif goal_variant == 'latevar' and 'L13' in lemmas:
+        target = IMP(c0, c0)
+        t = mmgen.apply('l13', fr, {'ph3': c0}, [])
     elif goal_variant == 'axiom':
         target = IMP(c0, A('c1'))
         t = ('ax-a', [])
@@ -166,9 +185,9 @@ def specs(thorough):
     orders = [(0, 1, 2), (2, 0, 1), (1, 2, 0)] if thorough else [(0, 1, 2), (1, 2, 0)]
     for o in orders:
         for notation in (False, True):
-            for k in range(0, 11 if thorough else 4):
-                for lem in itertools.combinations(('L1', 'L2', 'L3', 'L4', 'L5', 'L6', 'L7', 'L8', 'L10', 'L12'), k):
-                    for gv in ('refl', 'rule', 'both', 'dv', 'nested', 'notation', 'gdv', 'dvextra', 'dummy', 'dummydv', 'chain', 'outerhyp', 'axiom'):
+            for k in range(0, 12 if thorough else 4):
+                for lem in itertools.combinations(('L1', 'L2', 'L3', 'L4', 'L5', 'L6', 'L7', 'L8', 'L10', 'L12', 'L13'), k):
+                    for gv in ('refl', 'rule', 'both', 'dv', 'nested', 'notation', 'gdv', 'dvextra', 'dummy', 'dummydv', 'chain', 'outerhyp', 'latevar', 'axiom'):
                         out.append((o, notation, lem, gv))
     return out
 
@@ -238,7 +257,8 @@ def slices(db, desc, orig_model):
         text = Encoder.encode_string(sl)
         try:
             from proof_generation.metamath.parser import parse_database
-            parse_database(text)
+            if parse_database(text) != sl:
+                viols.append((dict(kind='slice_reparse_differs', lemma_kind=_kind(label)), desc, f'{desc}: parse(print(slice for {label})) differs from the slice'))
         except Exception as ex:  # noqa: BLE001
             viols.append((dict(kind='slice_does_not_reparse', lemma_kind=_kind(label)), desc, f'{desc}: the slice for {label} does not re-parse: {str(ex)[:160]}'))
             continue
@@ -261,7 +281,7 @@ def slices(db, desc, orig_model):
 
 
 def _kind(label):
-    return {'l1': 'plain', 'l2': 'essential', 'l3': 'disjoint', 'l4': 'nested', 'l5': 'global_dv', 'l6': 'dv_extra_var', 'l7': 'dummy_var', 'l8': 'essential_uses_essential', 'l10': 'dummy_var_global_dv', 'l12': 'outer_block_hypothesis'}.get(label, 'goal')
+    return {'l1': 'plain', 'l2': 'essential', 'l3': 'disjoint', 'l4': 'nested', 'l5': 'global_dv', 'l6': 'dv_extra_var', 'l7': 'dummy_var', 'l8': 'essential_uses_essential', 'l10': 'dummy_var_global_dv', 'l12': 'outer_block_hypothesis', 'l13': 'late_variable'}.get(label, 'goal')
 
 
 def db_chunk(sps):
